@@ -11,8 +11,11 @@ import (
 	"net/http/httptest"
 	"net/url"
 	"runtime"
+	"strconv"
 	"strings"
 	"sync"
+	"sync/atomic"
+	"time"
 
 	"github.com/whoisnian/glb/httpd"
 )
@@ -231,7 +234,9 @@ type routerWorker struct {
 	rec                                  *httptest.ResponseRecorder
 	req                                  *http.Request
 	cur                                  routerObs
-	panicNow                             bool     // the next handler that runs panics after recording
+	panicNow                             bool // the next handler that runs panics after recording
+	lazyNow                              bool // the next handler that runs registers a further route on its Mux
+	curMux                               *httpd.Mux
 	names                                []string // every :name of the current table (probed by every handler)
 	lines                                []routerLine
 	cnt                                  map[string]int
@@ -264,6 +269,14 @@ func (w *routerWorker) record(id int, s *httpd.Store) {
 	for _, n := range w.names {
 		c.gets = append(c.gets, s.RouteParam(n))
 	}
+	if w.lazyNow {
+		w.lazyNow = false
+		routerLazySeq++
+		func() { // lazy registration from inside a handler: the Mux must not be locked against its own handlers
+			defer func() { recover() }()
+			w.curMux.Handle("/lazy-"+strconv.Itoa(routerLazySeq)+"/:v", "GET", func(*httpd.Store) {})
+		}()
+	}
 	if w.panicNow {
 		w.panicNow = false
 		panic(routerHandlerPanic) // the handler's own panic (as http.ErrAbortHandler would be): not the router's
@@ -271,10 +284,13 @@ func (w *routerWorker) record(id int, s *httpd.Store) {
 }
 
 var routerHandlerPanic = errors.New("verif: this handler panics on purpose")
+var routerLazySeq int
+var routerWedged atomic.Bool // a request did not return: goroutines of the code under test are stuck, stop exploring
 
 func (w *routerWorker) serve(mux *httpd.Mux, path, method string) {
 	w.cur.calls, w.cur.id, w.cur.panicked = 0, -2, ""
 	w.req.URL.Path, w.req.Method = path, method
+	w.curMux = mux
 	// the request's escaped spelling (URL.RawPath, set by net/http when the wire form is not the default
 	// encoding of Path) is not the path: routing goes by URL.Path whatever RawPath says
 	w.req.URL.RawPath = ""
@@ -343,7 +359,7 @@ func (w *routerWorker) specLine() string {
 func (w *routerWorker) violate(kind, detail string, replay any) {
 	w.failed = true
 	if len(w.viol) < 5 {
-		if rp, ok := replay.(routerReplay); ok && len(w.viol) < 2 && kind != "register-error-class" {
+		if rp, ok := replay.(routerReplay); ok && len(w.viol) < 2 && kind != "register-error-class" && kind != "request-does-not-return" {
 			rp.Table = ddmin(rp.Table, func(regs []routerReg) bool { return routerRequestFails(regs, rp.Path, rp.Method) })
 			replay = rp
 		}
@@ -997,6 +1013,9 @@ func routerCountTable(w *routerWorker, t *routerTable) {
 // routerRandomTable: one random table, 300 paths x 4 methods through the direct oracle, a sample of
 // them also through the Lean model and the Lean specification.
 func routerRandomTable(w *routerWorker, r *Rng) {
+	if routerWedged.Load() {
+		return
+	}
 	regs := routerRandTable(r)
 	t := w.setup(regs, true)
 	routerCountTable(w, t)
@@ -1016,6 +1035,20 @@ func routerRandomTable(w *routerWorker, r *Rng) {
 		}
 		if i%37 == 20 {
 			w.installNoRoute(t) // the no-route handler is replaced while the mux is in service
+		}
+		if i%29 == 13 {
+			// the handler of this request registers a route: served under a watchdog, a Mux that holds a lock
+			// while its handlers run would wait for itself
+			w.lazyNow = true
+			done := make(chan struct{})
+			go func() { defer close(done); w.request(t, p, routerRandMethod(r, t), false, false) }()
+			select {
+			case <-done:
+			case <-time.After(10 * time.Second):
+				routerWedged.Store(true)
+				w.violate("request-does-not-return", fmt.Sprintf("ServeHTTP(%q) has not returned after 10 s: its handler calls Handle on the same Mux", p.s), routerReplay{Table: t.regs, Path: p.s, PathHx: hxs(p.s)})
+				return
+			}
 		}
 		if i%11 == 7 {
 			w.panicNow = true // the handler of the next request panics after looking around; later requests must not notice
